@@ -65,17 +65,28 @@ theorem unpackSdoNormal_cons (l0 l1 a2 a3 a4 a5 a6 a7 a8 a9 a10 a11 : Nat) (tl :
 
 /-! ### mailbox_write_read when the device answers with exactly one message -/
 
+/-- `mailbox_write_read` when the device answers with at least one message: the first one is triaged, the others stay
+    queued in the device. -/
+theorem mwr_head {σ ρ : Type} (w : World σ) (cfg : Cfg) (req : List Nat) (u : List Nat → Res ρ) (v : Nat → Nat → Bool)
+    (s : St σ) (d' : σ) (m : List Nat) (rest : List (List Nat)) (hm : cfg.hasMailbox = true)
+    (hq : s.outq.length ≤ DRAIN_ROUNDS) (hr : w.respond s.dev (image cfg.wmbx req) = (d', m :: rest)) :
+    mailboxWriteRead w cfg req u v s =
+      (triage cfg u v (mkPdu cfg (image cfg.rmbx m)),
+        { ctr := s.ctr, dev := d', outq := rest, reqs := s.reqs ++ [image cfg.wmbx req],
+          reads := s.reads + s.outq.length + 1 }) := by
+  unfold mailboxWriteRead
+  rw [if_neg (by simp [hm])]
+  have hdrop : s.outq.drop DRAIN_ROUNDS = [] := List.drop_eq_nil_of_le hq
+  simp only [drainStale, writeRequest, readMailbox, hr, hdrop, List.nil_append, Nat.min_eq_right hq]
+
 theorem mwr_single {σ ρ : Type} (w : World σ) (cfg : Cfg) (req : List Nat) (u : List Nat → Res ρ) (v : Nat → Nat → Bool)
     (s : St σ) (d' : σ) (m : List Nat) (hm : cfg.hasMailbox = true) (hq : s.outq.length ≤ DRAIN_ROUNDS)
     (hr : w.respond s.dev (image cfg.wmbx req) = (d', [m])) :
     mailboxWriteRead w cfg req u v s =
       (triage cfg u v (mkPdu cfg (image cfg.rmbx m)),
         { ctr := s.ctr, dev := d', outq := [], reqs := s.reqs ++ [image cfg.wmbx req],
-          reads := s.reads + s.outq.length + 1 }) := by
-  unfold mailboxWriteRead
-  rw [if_neg (by simp [hm])]
-  have hdrop : s.outq.drop DRAIN_ROUNDS = [] := List.drop_eq_nil_of_le hq
-  simp only [drainStale, writeRequest, readMailbox, hr, hdrop, List.nil_append, Nat.min_eq_right hq]
+          reads := s.reads + s.outq.length + 1 }) :=
+  mwr_head w cfg req u v s d' m [] hm hq hr
 
 /-! ### Bit fields of the bytes an honest server sends -/
 
